@@ -32,6 +32,7 @@ class C18(SCheck):
         flags = {"r": True, "fsync": True}
         if r.random() < 0.2:
             flags["reflink"] = "never"
+        gen.swarm_flags(r, flags, allow=("no_perms", "no_timestamps", "ownership", "no_progress"), p=0.15)
         kernel = {}
         c = r.random()
         if c < 0.2:
